@@ -118,6 +118,12 @@ class ECDSAPrivateKey(_ECKey):
         priv = priv_key.private_numbers()
         pub = priv.public_numbers
 
+        if not public_value:
+            # The public point is optional in an encoded EC private
+            # key (RFC 5915), so derive it when it is not provided
+            public_value = priv_key.public_key().public_bytes(
+                Encoding.X962, PublicFormat.UncompressedPoint)
+
         return cls(priv_key, curve_id, pub, public_value, priv)
 
     @classmethod
